@@ -180,7 +180,9 @@ def run_ties(ctx, counts):
     for start, cnt, chk, case in checks:
         detail = chk(out[start:start + cnt])
         ctx.traces_validated += 1
-        if detail is not None:
+        if detail == 'ok-discriminates':
+            ctx.count('multi:history-on-which-the-shared-pool-model-differs')
+        elif detail is not None:
             ctx.disagree('C02 ' + case['family'], {'case': case, 'detail': detail})
 
 
@@ -192,7 +194,7 @@ def replay_case(ctx, case):
         ok = False
     if t.check is not None:
         detail = t.check(ctx.model(t.lines))
-        if detail is not None:
+        if detail is not None and detail != 'ok-discriminates':
             print('  model/implementation:', detail)
             ok = False
     return ok
